@@ -20,6 +20,7 @@ warnings.simplefilter("ignore")
 import checkpoint_schedules as cs  # noqa: E402
 from checkpoint_schedules import schedule as sch  # noqa: E402
 from checkpoint_schedules import mixed as mixed_mod  # noqa: E402
+from checkpoint_schedules import multistage as ms  # noqa: E402
 
 ST = sch.StorageType
 ST_NAME = {ST.RAM: "R", ST.DISK: "D", ST.WORK: "W", ST.NONE: "N"}
@@ -172,6 +173,16 @@ def _disturbers(spec):
     leak between instances (class attributes, module-level caches with incomplete keys, shared mutable defaults)
     shows up in the check of whichever property it breaks."""
     out = []
+    w = spec.split()
+    if w[0] == "MS" and int(w[1]) <= 150 and int(w[2]) > 0 and int(w[3]) > 0:
+        # what-if queries of the public helper with non-default keyword arguments (a cache keyed without them would
+        # hand the schedule below a stale allocation)
+        for kw in ({"write_weight": 1.0, "read_weight": 0.0}, {"write_weight": 0.0, "read_weight": 1.0},
+                   {"delete_weight": 3.0})[: 1 + sum(map(ord, spec)) % 3]:
+            try:
+                ms.allocate_snapshots(int(w[1]), int(w[2]), int(w[3]), trajectory=w[4], **kw)
+            except Exception:
+                pass
     for sp, steps in ((_bigger(spec), 3), (spec, 1 + (sum(map(ord, spec)) % 5))):
         if sp is None:
             continue
